@@ -72,6 +72,18 @@ def _guard_exprs(F, site):
             out.append(a["guard"])
         elif k == "Call" and a["fn"].get("name") in ("ok_or", "ok_or_else", "map_err") and a["args"] and prev is not a["args"][0]:
             out.append(a["args"][0])
+        elif k == "Let" and a.get("else") is not None and prev is a.get("else") and a.get("init") is not None:
+            out.append(a["init"])          # `let Some(x) = tested(..) else { return Err(..) }`
+        elif k == "Block":
+            # earlier statements of the block that leave early decide that the site is reached
+            for st in a.get("stmts", []):
+                if st is prev or st.get("e") is prev or st.get("init") is prev:
+                    break
+                e = st.get("e") if st.get("k") != "Let" else None
+                if e is not None and unblock(e).get("k") == "If" and any(y.get("k") == "Return" for y in walk_all(unblock(e)["then"])):
+                    out.append(unblock(e)["cond"])
+                if st.get("k") == "Let" and st.get("else") is not None and st.get("init") is not None:
+                    out.append(st["init"])
         prev = a
     # closure bodies: the guard is the receiver of the map_err / ok_or_else that owns the closure
     f = site["f"]
